@@ -31,6 +31,8 @@ N18 inside a class with exactly one base B: `super().m(...)` / `super(C, self).m
     (`B.__new__(cls, ...)` keeps its explicit first argument) -- the explicit spelling of the same call under single inheritance
 N19 a list comprehension that is only iterated by its consumer (`join`, `list`, `tuple`, `set`, `sorted`, `any`, `all`, `sum`,
     `min`, `max`, `dict`, `OrderedDict`)  ->  the generator expression
+N20 `a, b = t` where t is only ever bound to tuple displays of that length in the statements just before (e.g. on the
+    branches of an if or a for/else) and read nowhere else: every `t = (X, Y)` becomes `a = X; b = Y` and the unpacking goes
 N7  (Program level, propagate_constants) a name that resolves to a module-level constant of the package bound exactly
     once to a str/bytes/number/bool/None literal is replaced by that literal, so that a literal and a named
     constant with the same value are the same thing to every rule.
@@ -554,6 +556,68 @@ def _n17_function(func):
             k += 1
         return changed
 
+    def fix_unpack(stmts):
+        changed = False
+        k = 0
+        while k < len(stmts):
+            st = stmts[k]
+            if isinstance(st, ast.Assign) and len(st.targets) == 1 and isinstance(st.targets[0], (ast.Tuple, ast.List)) and isinstance(st.value, ast.Name) \
+                    and all(isinstance(e, ast.Name) for e in st.targets[0].elts):
+                t = st.value.id
+                tg = [e.id for e in st.targets[0].elts]
+                if t not in params and t not in nested and t not in declared and t not in tg and len(set(tg)) == len(tg):
+                    first = next((j for j in range(k) if occurrences([stmts[j]], t)), None)
+                    if first is not None and occurrences(stmts[first:k], t) + 1 == total.get(t, 0) and not any(occurrences(stmts[first:k], x) for x in tg):
+                        binds = []
+                        ok = True
+                        for nd in stmts[first:k]:
+                            for y in ast.walk(nd):
+                                if isinstance(y, ast.Name) and y.id == t and not isinstance(y.ctx, ast.Store):
+                                    ok = False
+                            for y in ast.walk(nd):
+                                if isinstance(y, ast.Assign) and any(isinstance(z, ast.Name) and z.id == t for tt in y.targets for z in ast.walk(tt)):
+                                    if len(y.targets) == 1 and isinstance(y.targets[0], ast.Name) and isinstance(y.value, (ast.Tuple, ast.List)) and len(y.value.elts) == len(tg) \
+                                            and not any(isinstance(z, ast.Starred) for z in y.value.elts):
+                                        binds.append(y)
+                                    else:
+                                        ok = False
+                        n_stores = sum(1 for nd in stmts[first:k] for y in ast.walk(nd) if isinstance(y, ast.Name) and y.id == t)
+                        if ok and binds and n_stores == len(binds):
+                            # rewrite every `t = (X, Y)` in place as `a, b = (X, Y)`; N11-style splitting happens right here
+                            def split_in(block):
+                                i = 0
+                                while i < len(block):
+                                    b_ = block[i]
+                                    if any(b_ is y for y in binds):
+                                        new = []
+                                        for nm_, v_ in zip(tg, b_.value.elts):
+                                            a_ = ast.Assign(targets=[ast.Name(id=nm_, ctx=ast.Store())], value=v_)
+                                            ast.copy_location(a_.targets[0], b_)
+                                            new.append(ast.copy_location(a_, b_))
+                                        block[i:i + 1] = new
+                                        i += len(new)
+                                        continue
+                                    for fld in ("body", "orelse", "finalbody"):
+                                        v = getattr(b_, fld, None)
+                                        if isinstance(v, list) and v and isinstance(v[0], ast.stmt):
+                                            split_in(v)
+                                    if isinstance(b_, ast.Try):
+                                        for h in b_.handlers:
+                                            split_in(h.body)
+                                    i += 1
+                            idx_k = k
+                            sub = stmts[first:k]
+                            split_in(sub)
+                            stmts[first:k + 1] = sub
+                            for nm_ in tg:
+                                total[nm_] = total.get(nm_, 0) + len(binds) - 1
+                            total[t] = 0
+                            changed = True
+                            k = first + len(sub)
+                            continue
+            k += 1
+        return changed
+
     def blocks():
         for x in ast.walk(func):
             if x is not func and isinstance(x, (ast.FunctionDef, ast.AsyncFunctionDef, ast.ClassDef, ast.Lambda)):
@@ -565,7 +629,9 @@ def _n17_function(func):
             if isinstance(x, ast.ExceptHandler):
                 yield x.body
     for _ in range(3):
-        if not any([fix(v) for v in list(blocks())]):
+        c1 = any([fix(v) for v in list(blocks())])
+        c2 = any([fix_unpack(v) for v in list(blocks())])
+        if not (c1 or c2):
             break
 
 
